@@ -249,6 +249,11 @@ impl<'tcx> Cx<'tcx> {
         } || ty.has_param();
         if generic {
             fields.push(("generic", b(true)));
+            if let mir::Const::Ty(_, ct) = c.const_ {
+                if let ty::ConstKind::Param(pc) = ct.kind() {
+                    fields.push(("param", s(pc.name.to_string())));
+                }
+            }
             return J::Obj(fields);
         }
         if let mir::Const::Unevaluated(uv, _) = c.const_ {
@@ -337,6 +342,27 @@ impl<'tcx> Cx<'tcx> {
                     }
                 } else {
                     fields.push(("indirect", b(true)));
+                    // a table of f64 (e.g. the Pade coefficients): export the elements
+                    if let (ty::Array(et, _), ConstValue::Indirect { alloc_id, offset }) = (ty.kind(), val) {
+                        if matches!(et.kind(), ty::Float(ty::FloatTy::F64)) {
+                            if let Some(rustc_middle::mir::interpret::GlobalAlloc::Memory(mem)) =
+                                tcx.try_get_global_alloc(alloc_id)
+                            {
+                                let a = mem.inner();
+                                let start = offset.bytes() as usize;
+                                let bytes = a.inspect_with_uninit_and_ptr_outside_interpreter(start..a.len());
+                                let vals: Vec<J> = bytes
+                                    .chunks_exact(8)
+                                    .map(|c| {
+                                        let mut w = [0u8; 8];
+                                        w.copy_from_slice(c);
+                                        s(format!("{:?}", f64::from_le_bytes(w)))
+                                    })
+                                    .collect();
+                                fields.push(("f64_array", J::Arr(vals)));
+                            }
+                        }
+                    }
                 }
             }
         }
